@@ -362,5 +362,5 @@ def main(tier, seed, workers=None):
     run = Run(PROP, "exploration", tier, seed, RULE)
     run.assumptions = ["the text form of a value is str(value) ('' for None in CSV); the printable representation of a record is "
                        "<name field=repr(value) ...>", "option sets beyond the default are applied to cell/sequence cases and to a quarter of the value cases"]
-    explore(run, cases(tier, seed), run_case, workers, chunk=16)
+    explore(run, cases(tier, seed), run_case, workers, chunk=16, reversed_pass=(tier == "thorough"))
     return run.finish(lambda case: [v[0] for v in run_case(case)["viol"]])
